@@ -233,6 +233,15 @@ def make_cases(res, rng, tier):
         col = np.array([float(off + rng.randrange(L)) for _ in range(rng.randint(1, 15))])
         dummy = rng.random() < 0.5
         t = FactorTerm(0, coding='dummy' if dummy else 'one-hot')
+        recompiled = rng.random() < 0.5
+        if recompiled:
+            # the same term object was compiled before on a column with other levels (an earlier fit of the same estimator):
+            # the documented columns depend on the data of the LAST compile only
+            L0 = rng.randint(1, 9)
+            off0 = rng.choice([0, 0, 2, -1, 7])
+            col0 = np.array([float(off0 + rng.randrange(L0)) for _ in range(rng.randint(1, 15))])
+            t.compile(col0[:, None])
+            res.count('factor compile after an earlier compile')
         t.compile(col[:, None])
         cases.append('(CFactorCompile %s %s (%s,%s) %d)' % (coq_list([dylit(v) for v in col]), coq_bool(dummy),
                                                           dylit(t.edge_knots_[0]), dylit(t.edge_knots_[1]), int(t.n_splines)))
